@@ -736,7 +736,8 @@ def run(ctx):
 META = {
     "level": "proof",
     "technique": "error typestate over the resolved call graph + variant "
-                 "decision tables on MIR (static analysis)",
+                 "decision tables on MIR; census of type-resolved formatting "
+                 "sites of the error type (static analysis)",
     "trusted_base": ["rustc MIR construction and callee resolution (nightly "
                      "1.97)", "snafu 0.6 ResultExt::context semantics",
                      "exceptions 4 and 5 (DESIGN §4)"],
